@@ -336,6 +336,9 @@ type chain struct {
 	emptied   bool
 	c         *Case
 	noViews   bool
+	// twin mode (C01): every transaction is delivered; its Mode and the block's queries describe extra
+	// read-only traffic that only the second instance receives (issued by the oracle)
+	deliverAll bool
 }
 
 func (ch *chain) pruning() stypes.PruningOptions {
@@ -468,7 +471,11 @@ func (ch *chain) run(o chainOracle) *Violation {
 			bt := ch.buildTx(tx)
 			ci := &callInfo{Height: h, Time: ch.now, BlockIx: bi, TxIx: ti, Tx: tx, TxBytes: bt.Bytes, Built: bt}
 			ci.Before = ch.view()
-			switch tx.Mode {
+			mode := tx.Mode
+			if ch.deliverAll {
+				mode = ""
+			}
+			switch mode {
 			case "check":
 				ci.Kind = "check"
 				ci.Panic = safeCall(func() { ci.Check = ch.app.CheckTx(abci.RequestCheckTx{Tx: bt.Bytes}) })
@@ -492,6 +499,9 @@ func (ch *chain) run(o chainOracle) *Violation {
 			}
 		}
 		for qi := range b.Queries {
+			if ch.deliverAll {
+				break
+			}
 			q := &b.Queries[qi]
 			ci := &callInfo{Kind: "query", Height: h, Time: ch.now, BlockIx: bi, TxIx: qi}
 			ci.Before = ch.view()
